@@ -132,6 +132,8 @@ def oracle(case, it):
     if last_ev > total - 50:
         return 'still emitting output %d ms after the last release (event at tick %d)' % (DRAIN, last_ev)
     if m.group(5) != '1':
+        if ' rec=1' in e and 'replay-delay-behaviour constant' not in case['cfg']:
+            return None    # an open recording whose delays will be used: the ticks between events must keep running
         return 'kanata does not report idle %d ms after the last release' % DRAIN
     return None
 
